@@ -693,6 +693,25 @@ def rule_19_9(rep, fx):
     variants = [lab for _s, _t, lab in state_edges if isinstance(lab, str)]
     if len(variants) < 6:
         raise CheckBroken('R19.9: the match on the handshake state in participant_stateless_message_read has %d named arms, expected 6' % len(variants))
+    # admission: the dispatch is reached exactly for handshake messages meant for this participant
+    adm_cls = [(s_, t_) for s_, t_, cond, lab in edges if cond[0] == 'call' and cond[1].rsplit('::', 1)[-1] in ('eq', 'ne') and has_field(cond, 'message_class_id') and
+               term_has(cond, lambda x: x[0] == 'const' and str(x[-1]).endswith('GMCLASSID_SECURITY_AUTH_HANDSHAKE')) and
+               ((cond[1].endswith('eq') and lab is True) or (cond[1].endswith('ne') and lab is False))]
+    adm_me = [(s_, t_) for s_, t_, cond, lab in edges if (cond[0] == 'call' and cond[1].endswith('is_stateless_msg_for_local_participant') and lab is True) or
+              (cond[0] == 'un' and has_call(cond, 'is_stateless_msg_for_local_participant') and lab is False)]
+    sw = sorted(set(s_ for s_, _t, _l in state_edges))
+    okadm = bool(adm_cls) and bool(adm_me) and all(P.every_path_passes(None, (x, 'term'), via_edges=adm_cls, from_entry=True) and
+                                                   P.every_path_passes(None, (x, 'term'), via_edges=adm_me, from_entry=True) for x in sw)
+    # and nothing else keeps a handshake message for us from the dispatch
+    rej = [(s_, t_) for s_, t_, cond, lab in edges if (s_, t_) not in adm_cls and (s_, t_) not in adm_me and
+           ((cond[0] == 'call' and cond[1].rsplit('::', 1)[-1] in ('eq', 'ne') and has_field(cond, 'message_class_id')) or
+            (cond[0] in ('call', 'un') and has_call(cond, 'is_stateless_msg_for_local_participant')) or (cond[0] == 'call' and cond[1].endswith('is_stateless_msg_for_local_participant')))]
+    for x in sw:
+        if not P.can_reach((0, 0), (x, 'term'), avoid_edges=rej) and x != 0:
+            okadm = False
+    rep.check(okadm, 'R19.9', 'participant_stateless_message_read/admission', 'dispatch <=> for this participant and class id == GMCLASSID_SECURITY_AUTH_HANDSHAKE',
+              'participant_stateless_message_read does not reach the dispatch on the handshake state exactly for messages that are meant for this participant and carry the handshake '
+              'class id (a test is missing or inverted): handshake messages are dropped, or other messages are fed to the handshake', b.where())
     own = [(bb, t) for bb, t in b.calls() if callee_res(t).startswith(SD) and bb > 0 and
            callee_res(t).rsplit('::', 1)[-1] not in ('get_handshake_state', 'is_stateless_msg_for_local_participant')]
     for s_, t_, lab in state_edges:
